@@ -42,7 +42,7 @@ class TypeNormalizer:
         elif t in UnionTypes:
             return type[t]
         elif isinstance(t, typing._AnnotatedAlias):
-            t = t.__origin__
+            return self(t.__origin__, fn)
 
         origin = getattr(t, "__origin__", None)
         if UnionType and isinstance(t, UnionType):
